@@ -825,6 +825,37 @@ func runF9(p *an.Prog, r *an.Result) {
 			r.Bad(name, construct, cv.Pos(), fmt.Sprintf("%s converts a floating-point value to an integer without rounding it first or checking that nothing was lost: 2.5 becomes 2", an.FuncName(fn)))
 		})
 	}
+	// no number takes a detour through text: a float formatted and parsed back (to 'tidy' 0.30000000000000004)
+	// keeps at most the digits of the format and changes every value that needs more
+	roles = GetRoles(p)
+	for _, fn := range p.Funcs {
+		if fn.Blocks == nil || fn.Pkg == nil || isMainPkg(fn) {
+			continue
+		}
+		if rp := an.RelPkg(fn.Pkg.Pkg.Path()); rp != "filters" && rp != "values" {
+			continue
+		}
+		an.EachInstr(fn, func(in ssa.Instruction) {
+			c, ok := in.(*ssa.Call)
+			if !ok || an.CallName(&c.Call) != "strconv.ParseFloat" {
+				return
+			}
+			fromFormat := an.Reaches(c.Call.Args[0], an.StepValue, func(o ssa.Value) bool {
+				fc := an.CallOf(o)
+				if fc == nil {
+					return false
+				}
+				switch an.CallName(fc) {
+				case "strconv.FormatFloat", "fmt.Sprint", "fmt.Sprintf", "strconv.AppendFloat":
+					return true
+				}
+				return false
+			})
+			if fromFormat {
+				r.Bad(roles.Label(fn), "a number formatted and parsed back", c.Pos(), fmt.Sprintf("%s parses text that it (or its caller) has just formatted from a number: the round trip keeps only the digits of the format, so exact results with more digits are changed", an.FuncName(fn)))
+			}
+		})
+	}
 }
 
 // ---------------------------------------------------------------------------
@@ -1499,4 +1530,182 @@ func runF11(p *an.Prog, r *an.Result) {
 		}
 	}
 	r.Floor("drop wrapper methods", 8)
+}
+
+// ---------------------------------------------------------------------------
+// F12
+
+func init() {
+	register("F12", "a filter that takes its argument as it comes (any) and recognises sequences by their reflect kind also recognises the module's own sequence that is not a slice: a Range reaches such a filter unconverted, and its kind is Struct", runF12)
+}
+
+func runF12(p *an.Prog, r *an.Result) {
+	roles := GetRoles(p)
+	for _, f := range roles.Filters {
+		if !f.InMod || f.Fn == nil || f.Sig.Params().Len() == 0 {
+			continue
+		}
+		if !an.IsInterface(f.Sig.Params().At(0).Type()) {
+			continue
+		}
+		label := f.Label()
+		seqKind, rangeSeen := false, false
+		var pos token.Pos
+		for _, fn := range unitWithHelpers(p, f.Fn) {
+			if fn.Pkg == nil || !p.InModule(fn) {
+				continue
+			}
+			an.EachInstr(fn, func(in ssa.Instruction) {
+				switch x := in.(type) {
+				case *ssa.BinOp:
+					if x.Op != token.EQL {
+						return
+					}
+					for _, pair := range [][2]ssa.Value{{x.X, x.Y}, {x.Y, x.X}} {
+						if k, ok := an.ConstInt(pair[1]); ok && (k == 17 || k == 23) && isPkgType(pair[0].Type(), "reflect", "Kind") {
+							seqKind = true
+							if pos == token.NoPos {
+								pos = an.InstrPos(in)
+							}
+						}
+					}
+				case *ssa.TypeAssert:
+					if isNamedIn(x.AssertedType, "values", "Range") {
+						rangeSeen = true
+					}
+				case *ssa.Call:
+					// or hands the value to the call layer's conversion, which knows ranges
+					if cn := an.CallName(&x.Call); cn == "values.Convert" || cn == "values.MustConvert" {
+						rangeSeen = true
+					}
+				}
+			})
+		}
+		if !seqKind {
+			continue
+		}
+		r.Counts["filters that test for a sequence kind"]++
+		if rangeSeen {
+			r.OK(label, "tests the kind for Array/Slice and knows Range", pos, "")
+		} else {
+			r.Bad(label, "tests the kind for Array/Slice but not for Range", pos, fmt.Sprintf("filter %q looks at the reflect kind of its argument to find sequences; a range (a..b) is a struct to reflect, so it is treated as a scalar: its size is 0, it has no elements", f.Name))
+		}
+	}
+	r.Floor("filters that test for a sequence kind", 1)
+}
+
+// ---------------------------------------------------------------------------
+// X17
+
+func init() {
+	register("X17", "the text the expression lexer is started on is the caller's expression (with the statement selector in front and the end marker behind) and nothing else: on the way from Parse/ParseStatement to the lexer it is only concatenated with constants - no replacement, trimming or splitting, which cannot tell a string literal's content from syntax", runX17)
+}
+
+func runX17(p *an.Prog, r *an.Result) {
+	var sites []*ssa.Call
+	for _, fn := range p.Funcs {
+		if fn.Pkg == nil || an.RelPkg(fn.Pkg.Pkg.Path()) != "expressions" || p9OutOfScope(p, fn) != "" {
+			continue
+		}
+		an.EachInstr(fn, func(in ssa.Instruction) {
+			if c, ok := in.(*ssa.Call); ok {
+				if callee := c.Call.StaticCallee(); callee != nil && callee.Name() == "newLexer" {
+					sites = append(sites, c)
+				}
+			}
+		})
+	}
+	for _, c := range sites {
+		name := an.FuncName(c.Parent())
+		r.Counts["lexer starts"]++
+		bad := ""
+		seen := map[ssa.Value]bool{}
+		var walk func(v ssa.Value, depth int)
+		walk = func(v ssa.Value, depth int) {
+			if v == nil || seen[v] || bad != "" {
+				return
+			}
+			if depth > 12 {
+				bad = "a value the rule could not follow"
+				return
+			}
+			seen[v] = true
+			switch x := v.(type) {
+			case *ssa.Const:
+			case *ssa.BinOp:
+				if x.Op != token.ADD {
+					bad = "the result of " + x.Op.String()
+					return
+				}
+				walk(x.X, depth+1)
+				walk(x.Y, depth+1)
+			case *ssa.Convert:
+				walk(x.X, depth+1)
+			case *ssa.Phi:
+				for _, e := range x.Edges {
+					walk(e, depth+1)
+				}
+			case *ssa.UnOp:
+				if al, ok := x.X.(*ssa.Alloc); ok {
+					for _, sv := range an.Stores(al) {
+						walk(sv, depth+1)
+					}
+					return
+				}
+				bad = "a loaded value " + describe(p, v)
+			case *ssa.Parameter:
+				fn := x.Parent()
+				if fn.Object() != nil && fn.Object().Exported() {
+					return // the caller's text
+				}
+				cs := callSitesOf(p, fn)
+				if len(cs) == 0 {
+					return
+				}
+				for i, pp := range fn.Params {
+					if pp == x {
+						for _, site := range cs {
+							if i < len(site.Call.Args) {
+								walk(site.Call.Args[i], depth+1)
+							}
+						}
+					}
+				}
+			case *ssa.Call:
+				if an.CallName(&x.Call) == "fmt.Sprintf" {
+					// a constant format with the pieces as arguments
+					for _, a := range x.Call.Args {
+						if sl, ok := a.(*ssa.Slice); ok {
+							if al, ok := sl.X.(*ssa.Alloc); ok && al.Referrers() != nil {
+								for _, au := range *al.Referrers() {
+									if ia, ok := au.(*ssa.IndexAddr); ok {
+										for _, sv := range an.Stores(ia) {
+											if mi, ok := sv.(*ssa.MakeInterface); ok {
+												walk(mi.X, depth+1)
+											} else {
+												walk(sv, depth+1)
+											}
+										}
+									}
+								}
+							}
+							continue
+						}
+						walk(a, depth+1)
+					}
+					return
+				}
+				bad = "the result of " + nonEmpty(an.CallName(&x.Call), "a call")
+			default:
+				bad = describe(p, v)
+			}
+		}
+		walk(c.Call.Args[0], 0)
+		if bad == "" {
+			r.OK(name, "the lexer is started on the caller's text between constants", c.Pos(), "")
+		} else {
+			r.Bad(name, "the lexer is started on rewritten text", c.Pos(), fmt.Sprintf("the text handed to the lexer contains %s: a rewrite of the source before lexing cannot tell the inside of a string literal from syntax (\"rock or roll\" is one value)", bad))
+		}
+	}
+	r.Floor("lexer starts", 1)
 }
